@@ -68,6 +68,12 @@ func (actorSelf *ActorDef[T]) Send(message T) {
 		return
 	}
 
+	// Close() may close the channel between the check above and the send: drop the message then
+	defer func() {
+		if r := recover(); r != nil && !actorSelf.isClosed {
+			panic(r)
+		}
+	}()
 	actorSelf.ch <- message
 }
 
